@@ -64,6 +64,9 @@ pub(crate) struct EntityReactionAccessTracker
 
 impl EntityReactionAccessTracker
 {
+    #[cfg(ukoehb_bevy_cobweb_verif)]
+    pub(crate) fn verif_state(&self) -> (usize, bool) { (self.prepared.len(), self.currently_reacting) }
+
     /// Caches metadata for an entity reaction.
     pub(crate) fn prepare(&mut self, system: SystemCommand, source: Entity, reaction: EntityReactionType)
     {
